@@ -901,7 +901,7 @@ fn run_leaf_inner(
 // ---------------------------------------------------------------------------------------------
 // C14: lock-step over policy configurations (differential, no model verdict)
 
-pub const C14_CONFIGS: [PolicyCfg; 8] = [
+pub const C14_CONFIGS: [PolicyCfg; 11] = [
     PolicyCfg::Default,
     PolicyCfg::AlwaysFsync,
     PolicyCfg::DoNothing,
@@ -910,6 +910,9 @@ pub const C14_CONFIGS: [PolicyCfg; 8] = [
     PolicyCfg::DelayExpiredFsync,
     PolicyCfg::DelayAltFlush,
     PolicyCfg::DelayAltFlush1,
+    PolicyCfg::DelayMod3Flush0,
+    PolicyCfg::DelayMod3Flush1,
+    PolicyCfg::DelayMod3Flush2,
 ];
 
 struct PolicyRun {
